@@ -23,7 +23,7 @@
 //	tls    0|1                        r.TLS != nil
 //	host   hex                        r.Host
 //	hdrs   . | name:value;…           request header fields in wire order (hex:hex)
-//	tbl    . | sub:canon:sbits:hbits;…  netip's answers: every '%'-free substring of remote /
+//	tbl    . | sub:canon:sbits:hbits:fbits;…  netip's answers: every '%'-free substring of remote /
 //	                                  a header value that netip.ParseAddr accepts, its
 //	                                  String(), and Prefix.Contains for each srvT / hT range
 //
@@ -32,7 +32,11 @@
 //	hops   0|1|2                      reverse_proxy request header ops (header_up): none | set an unrelated
 //	                                  field from an upstream placeholder | delete X-Forwarded-Host
 //
-// Answer: "ip=<hex> tp=<0|1> xff=<H> xfp=<H> xfh=<H>"  with H = absent | nil | hex,hex,…
+// Answer: "ip=<hex> tp=<0|1> ph=<hex> lg=<hex> cm=<0|1> rm=<0|1> pp=<hex>/<port>|invalid xff=<H> xfp=<H> xfh=<H>"
+//
+//	ph = {http.vars.client_ip}, lg = access-log field request.client_ip, cm / rm = the real client_ip /
+//	remote_ip matchers over srvT ++ hT ++ fixedRanges, pp = the PROXY-protocol address reverse_proxy
+//	derives for the upstream;  H = absent | nil | hex,hex,…
 //
 //	followed by " | xff=… xfp=… xfh=…" for every further attempt (fails+1 triples in all)
 //
@@ -54,9 +58,11 @@ import (
 	"strings"
 	"sync"
 
+	"go.uber.org/zap/zapcore"
+
 	"github.com/caddyserver/caddy/v2"
 	"github.com/caddyserver/caddy/v2/modules/caddyhttp"
-	_ "github.com/caddyserver/caddy/v2/modules/caddyhttp/reverseproxy"
+	"github.com/caddyserver/caddy/v2/modules/caddyhttp/reverseproxy"
 
 	"verif/harness/internal/core"
 )
@@ -75,7 +81,12 @@ type obs struct {
 	attempts  []http.Header // every attempt handed to the transport, in order
 	failLeft  int           // round trips that still have to fail (upstream "down")
 	outHost   string
-	matchedIP bool
+	matchedIP bool   // real `client_ip` matcher over matcherRanges
+	remoteHit bool   // real `remote_ip` matcher over the same ranges
+	placeh    string // {http.vars.client_ip} as the request's replacer expands it
+	logIP     string // the access log's request.client_ip field (LoggableHTTPRequest)
+	logHas    bool
+	ctx       context.Context // the prepared request's context (vars map), to read what reverse_proxy stored
 }
 
 var fwdNames = [3]string{"X-Forwarded-For", "X-Forwarded-Proto", "X-Forwarded-Host"}
@@ -86,12 +97,17 @@ type Probe struct {
 	Ranges []string `json:"ranges,omitempty"` // evaluated with the real `client_ip` matcher (ip_matchers.go)
 
 	cm *caddyhttp.MatchClientIP
+	rm *caddyhttp.MatchRemoteIP
 }
 
 func (p *Probe) Provision(ctx caddy.Context) error {
 	if len(p.Ranges) > 0 {
 		p.cm = &caddyhttp.MatchClientIP{Ranges: p.Ranges}
-		return p.cm.Provision(ctx)
+		if err := p.cm.Provision(ctx); err != nil {
+			return err
+		}
+		p.rm = &caddyhttp.MatchRemoteIP{Ranges: p.Ranges}
+		return p.rm.Provision(ctx)
 	}
 	return nil
 }
@@ -107,7 +123,16 @@ func (p *Probe) ServeHTTP(w http.ResponseWriter, r *http.Request, next caddyhttp
 		o.trusted, _ = caddyhttp.GetVar(r.Context(), caddyhttp.TrustedProxyVarKey).(bool)
 		if p.cm != nil {
 			o.matchedIP = p.cm.Match(r)
+			o.remoteHit = p.rm.Match(r)
 		}
+		if repl, ok := r.Context().Value(caddy.ReplacerCtxKey).(*caddy.Replacer); ok {
+			o.placeh = repl.ReplaceAll("{http.vars.client_ip}", "")
+		}
+		enc := zapcore.NewMapObjectEncoder()
+		if err := (caddyhttp.LoggableHTTPRequest{Request: r}).MarshalLogObject(enc); err == nil {
+			o.logIP, o.logHas = enc.Fields["client_ip"].(string)
+		}
+		o.ctx = r.Context()
 	}
 	for _, n := range p.Omit {
 		r.Header[n] = nil
@@ -403,6 +428,15 @@ func (k *kase) table() string {
 	if len(seen) == 0 {
 		return "."
 	}
+	// the consumers (client_ip matcher, PROXY protocol info) parse the attributed address again:
+	// rows for the canonical spelling of every address as well
+	for _, a := range seen {
+		if c := a.String(); !strings.Contains(c, "%") {
+			if b, err := netip.ParseAddr(c); err == nil {
+				seen[c] = b
+			}
+		}
+	}
 	subs := make([]string, 0, len(seen))
 	for s := range seen {
 		subs = append(subs, s)
@@ -410,10 +444,13 @@ func (k *kase) table() string {
 	sort.Strings(subs)
 	parts := make([]string, len(subs))
 	for i, s := range subs {
-		a := seen[s]
-		parts[i] = core.Hex(s) + ":" + core.Hex(a.String()) + ":" + bits(sp, a) + ":" + bits(hp, a)
+		parts[i] = tableRow(s, seen[s], sp, hp)
 	}
 	return strings.Join(parts, ";")
+}
+
+func tableRow(sub string, a netip.Addr, sp, hp []netip.Prefix) string {
+	return core.Hex(sub) + ":" + core.Hex(a.String()) + ":" + bits(sp, a) + ":" + bits(hp, a) + ":" + bits(fixedPrefixes, a)
 }
 
 // tableOK accepts the table given on the line iff it contains every row of the computed table
@@ -435,7 +472,7 @@ func (k *kase) tableOK(computed string) bool {
 	subs := map[string]bool{}
 	for _, row := range strings.Split(k.tbl, ";") {
 		f := strings.Split(row, ":")
-		if len(f) != 4 {
+		if len(f) != 5 {
 			return false
 		}
 		sub, err := core.UnHex(f[0])
@@ -443,7 +480,7 @@ func (k *kase) tableOK(computed string) bool {
 			return false
 		}
 		a, err := netip.ParseAddr(sub)
-		if err != nil || core.Hex(a.String()) != f[1] || bits(sp, a) != f[2] || bits(hp, a) != f[3] {
+		if err != nil || tableRow(sub, a, sp, hp) != row {
 			return false
 		}
 		subs[sub] = true
@@ -495,11 +532,29 @@ func (p *prop) Finish(s *core.Session) {
 	}
 }
 
-// matcherRanges is what the probe's `client_ip` matcher is configured with.
+// fixedRanges end the range list of the probe's matchers; the last one carries a zone filter.
+// (Same constants in lean/CaddyModel/C10/Driver.lean.)
+var fixedRanges = []string{"10.0.0.0/8", "2001:db8::/32", "::1", "fe80::/10%eth0"}
+var fixedZones = []string{"", "", "", "eth0"}
+var fixedPrefixes = func() []netip.Prefix {
+	var out []netip.Prefix
+	for _, r := range fixedRanges {
+		r, _, _ = strings.Cut(r, "%")
+		ps, err := parsePrefixes([]string{r})
+		if err != nil {
+			panic(err)
+		}
+		out = append(out, ps[0])
+	}
+	return out
+}()
+
+// matcherRanges is what the probe's `client_ip` and `remote_ip` matchers are configured with:
+// the server's ranges, the handler's ranges, then fixedRanges.
 func (k *kase) matcherRanges() []string {
 	out := append([]string{}, k.srvT...)
 	out = append(out, k.hT...)
-	return append(out, "10.0.0.0/8", "2001:db8::/32", "::1")
+	return append(out, fixedRanges...)
 }
 
 func (k *kase) cfgKey() string {
@@ -639,7 +694,21 @@ func (p *prop) serve(k *kase, hdrs []hdrField) (string, *obs, error) {
 	if !o.probed {
 		return "noprobe status=" + strconv.Itoa(w.Code), o, nil
 	}
-	head := "ip=" + core.Hex(o.clientIP) + " tp=" + b01(o.trusted)
+	lg := "none"
+	if o.logHas {
+		lg = core.Hex(o.logIP)
+	}
+	pp := "unset"
+	if o.ctx != nil {
+		if info, ok := caddyhttp.GetVar(o.ctx, "reverse_proxy.proxy_protocol_info").(reverseproxy.ProxyProtocolInfo); ok {
+			pp = "invalid"
+			if info.AddrPort.IsValid() {
+				pp = core.Hex(info.AddrPort.Addr().String()) + "/" + strconv.Itoa(int(info.AddrPort.Port()))
+			}
+		}
+	}
+	head := "ip=" + core.Hex(o.clientIP) + " tp=" + b01(o.trusted) + " ph=" + core.Hex(o.placeh) + " lg=" + lg +
+		" cm=" + b01(o.matchedIP) + " rm=" + b01(o.remoteHit) + " pp=" + pp
 	if !o.sent {
 		if w.Code == 500 {
 			return head + " err", o, nil
